@@ -1,0 +1,171 @@
+//go:build verif
+
+package pattern
+
+// Contracts for the verification machinery in /verif (see /verif/DESIGN.md).
+// This file contains only comments; it is compiled to nothing.
+
+//@ prop C09
+
+// ---- abstract view of the matcher ----
+// State: the visible bindings. setBindings: a stack of frames, each frame the set of binding
+// indices (bit i = binding bindingsMapping[i]) that were bound while the frame was on top.
+// named(mapping, mask, n): the frame mask records the binding called n.
+//@ ghost named(mapping []string, mask uint64, n string) bool = exists i int :: {mapping[i]} 0 <= i && i < len(mapping) && mapping[i] == n && bit(mask, i)
+// well-formed matcher: at most 64 bindings, pairwise different names, a frame on the stack
+//@ ghost wfM(mapping []string, stack []uint64) bool = 0 <= len(mapping) && len(mapping) <= 64 && len(stack) >= 1 && (forall i int, j int :: {mapping[i], mapping[j]} 0 <= i && i < len(mapping) && 0 <= j && j < len(mapping) && mapping[i] == mapping[j] ==> i == j)
+// a binding node is consistent with the pattern's table of names
+//@ ghost wfB(mapping []string, b Binding) bool = 0 <= b.idx && b.idx < len(mapping) && mapping[b.idx] == b.Name
+
+//@ func isNil
+//@   pure
+//@   ensures result == (v == nil || istype(v, Nil))
+
+// ---- G: what every matcher may do to the bindings (assumed for the reflective core `match`,
+// proved for Binding, Or, Not) ----
+//   stack:  same height, frames below the top untouched
+//   grow:   existing bindings keep their values
+//   record: a name bound by this call is recorded in the top frame
+//   exact:  a bit newly set in the top frame belongs to a name bound by this call
+//   keep:   bits of the top frame are never cleared
+//@ func match
+//@   trusted
+//@   requires m != nil && wfM(m.bindingsMapping, m.setBindings)
+//@   modifies m.State, m.setBindings
+//@   ensures  [stack]  len(m.setBindings) == len(old(m.setBindings)) && (forall j int :: {m.setBindings[j]} 0 <= j && j < len(m.setBindings) - 1 ==> m.setBindings[j] == old(m.setBindings)[j])
+//@   ensures  [grow]   forall n string :: {n in m.State} (n in old(m.State)) ==> (n in m.State) && m.State[n] == old(m.State)[n]
+//@   ensures  [record] forall n string :: {n in m.State} (n in m.State) && !(n in old(m.State)) ==> named(m.bindingsMapping, m.setBindings[len(m.setBindings)-1], n)
+//@   ensures  [exact]  forall i int :: {bit(m.setBindings[len(m.setBindings)-1], i)} 0 <= i && i < len(m.bindingsMapping) && bit(m.setBindings[len(m.setBindings)-1], i) && !bit(old(m.setBindings)[len(m.setBindings)-1], i) ==> (m.bindingsMapping[i] in m.State) && !(m.bindingsMapping[i] in old(m.State))
+//@   ensures  [keep]   forall i int :: {bit(m.setBindings[len(m.setBindings)-1], i)} 0 <= i && i < 64 && bit(old(m.setBindings)[len(m.setBindings)-1], i) ==> bit(m.setBindings[len(m.setBindings)-1], i)
+//@   ensures  [nonnil] m.State != nil || old(m.State) == nil
+
+//@ func (*Matcher).set
+//@   requires m != nil && m.State != nil && wfM(m.bindingsMapping, m.setBindings) && wfB(m.bindingsMapping, b)
+//@   modifies m.State, m.setBindings
+//@   ensures  [stack]  len(m.setBindings) == len(old(m.setBindings)) && (forall j int :: {m.setBindings[j]} 0 <= j && j < len(m.setBindings) - 1 ==> m.setBindings[j] == old(m.setBindings)[j])
+//@   ensures  [bound]  (b.Name in m.State) && m.State[b.Name] == value
+//@   ensures  [others] forall n string :: {n in m.State} n != b.Name ==> (n in m.State) == (n in old(m.State)) && ((n in m.State) ==> m.State[n] == old(m.State)[n])
+//@   ensures  [bit]    forall i int :: {bit(m.setBindings[len(m.setBindings)-1], i)} 0 <= i && i < 64 ==> bit(m.setBindings[len(m.setBindings)-1], i) == (i == b.idx || bit(old(m.setBindings)[len(m.setBindings)-1], i))
+
+//@ func (*Matcher).push
+//@   requires m != nil
+//@   modifies m.setBindings
+//@   ensures  [len]   len(m.setBindings) == len(old(m.setBindings)) + 1
+//@   ensures  [below] forall j int :: {m.setBindings[j]} 0 <= j && j < len(old(m.setBindings)) ==> m.setBindings[j] == old(m.setBindings)[j]
+//@   ensures  [empty] m.setBindings[len(m.setBindings)-1] == 0
+
+// pop: undo exactly the bindings recorded in the top frame, then drop the frame
+//@ func (*Matcher).pop
+//@   requires m != nil && wfM(m.bindingsMapping, m.setBindings) && (m.State != nil || m.setBindings[len(m.setBindings)-1] == 0)
+//@   modifies m.State, m.setBindings
+//@   ensures  [len]    len(m.setBindings) == len(old(m.setBindings)) - 1
+//@   ensures  [below]  forall j int :: {m.setBindings[j]} 0 <= j && j < len(m.setBindings) ==> m.setBindings[j] == old(m.setBindings)[j]
+//@   ensures  [undo]   forall n string :: {n in m.State} (n in m.State) == ((n in old(m.State)) && !named(m.bindingsMapping, old(m.setBindings)[len(old(m.setBindings))-1], n))
+//@   ensures  [values] forall n string :: {m.State[n]} (n in m.State) ==> m.State[n] == old(m.State)[n]
+//@   ensures  [nonnil] m.State != nil || old(m.State) == nil
+//@   loop 1   invariant [nonnil] m.State != nil || loopentry(m.State) == nil
+//@   loop 1   invariant [range]  0 <= i && i <= len(m.bindingsMapping)
+//@   loop 1   invariant [stack]  m.setBindings == loopentry(m.setBindings) && m.bindingsMapping == loopentry(m.bindingsMapping)
+//@   loop 1   invariant [undo]   forall n string :: {n in m.State} (n in m.State) == ((n in loopentry(m.State)) && !(exists q int :: {m.bindingsMapping[q]} 0 <= q && q < i && m.bindingsMapping[q] == n && bit(set, q)))
+//@   loop 1   invariant [values] forall n string :: {m.State[n]} (n in m.State) ==> m.State[n] == loopentry(m.State)[n]
+//@   loop 1   modifies m.State
+
+// merge: the top frame ends successfully: its bindings stay visible and therefore have to be
+// recorded in the enclosing frame (taken from G, which the enclosing matcher must satisfy)
+//@ func (*Matcher).merge
+//@   requires m != nil && len(m.setBindings) >= 1
+//@   modifies m.setBindings
+//@   ensures  [len]    len(m.setBindings) == len(old(m.setBindings)) - 1
+//@   ensures  [below]  forall j int :: {m.setBindings[j]} 0 <= j && j < len(m.setBindings) - 1 ==> m.setBindings[j] == old(m.setBindings)[j]
+//@   ensures  [union]  forall i int :: {bit(m.setBindings[len(m.setBindings)-1], i)} 0 <= i && i < 64 && len(m.setBindings) >= 1 ==> bit(m.setBindings[len(m.setBindings)-1], i) == (bit(old(m.setBindings)[len(old(m.setBindings))-2], i) || bit(old(m.setBindings)[len(old(m.setBindings))-1], i))
+
+// ---- the three binding-aware matchers, proved against G plus what the property says ----
+
+// Or: alternatives are atomic. A failed alternative leaves no trace; if all fail the bindings
+// are exactly those before the call.
+//@ func (Or).Match
+//@   requires m != nil && wfM(m.bindingsMapping, m.setBindings) && m.State != nil
+//@   modifies m.State, m.setBindings
+//@   ensures  [stack]  len(m.setBindings) == len(old(m.setBindings)) && (forall j int :: {m.setBindings[j]} 0 <= j && j < len(m.setBindings) - 1 ==> m.setBindings[j] == old(m.setBindings)[j])
+//@   ensures  [grow]   forall n string :: {n in m.State} (n in old(m.State)) ==> (n in m.State) && m.State[n] == old(m.State)[n]
+//@   ensures  [record] forall n string :: {n in m.State} (n in m.State) && !(n in old(m.State)) ==> named(m.bindingsMapping, m.setBindings[len(m.setBindings)-1], n)
+//@   ensures  [atomic] !result1 ==> (forall n string :: {n in m.State} (n in m.State) == (n in old(m.State))) && m.setBindings[len(m.setBindings)-1] == old(m.setBindings)[len(m.setBindings)-1]
+//@   loop 1   invariant [nonnil]  m.State != nil && m.bindingsMapping == loopentry(m.bindingsMapping)
+//@   loop 1   invariant [stack]   len(m.setBindings) == len(loopentry(m.setBindings)) && (forall j int :: {m.setBindings[j]} 0 <= j && j < len(m.setBindings) ==> m.setBindings[j] == loopentry(m.setBindings)[j])
+//@   loop 1   invariant [restore] forall n string :: {n in m.State} (n in m.State) == (n in loopentry(m.State))
+//@   loop 1   invariant [values]  forall n string :: {m.State[n]} (n in m.State) ==> m.State[n] == loopentry(m.State)[n]
+//@   loop 1   modifies m.State, m.setBindings
+
+// Not: bindings made inside the operand are never observable, whatever the outcome.
+//@ func (Not).Match
+//@   requires m != nil && wfM(m.bindingsMapping, m.setBindings) && m.State != nil
+//@   modifies m.State, m.setBindings
+//@   ensures  [stack]  len(m.setBindings) == len(old(m.setBindings)) && (forall j int :: {m.setBindings[j]} 0 <= j && j < len(m.setBindings) ==> m.setBindings[j] == old(m.setBindings)[j])
+//@   ensures  [atomic] forall n string :: {n in m.State} (n in m.State) == (n in old(m.State))
+//@   ensures  [values] forall n string :: {m.State[n]} (n in m.State) ==> m.State[n] == old(m.State)[n]
+
+// Binding: a fresh name is bound to the matched value and recorded; a name that is already bound
+// is matched against the stored value (recall) and not rebound.
+//@ func (Binding).Match
+//@   requires m != nil && wfM(m.bindingsMapping, m.setBindings) && m.State != nil && wfB(m.bindingsMapping, b)
+//@   modifies m.State, m.setBindings
+//@   panics_when !isNil(b.Node) && (b.Name in m.State)
+//@   ensures  [stack]  len(m.setBindings) == len(old(m.setBindings)) && (forall j int :: {m.setBindings[j]} 0 <= j && j < len(m.setBindings) - 1 ==> m.setBindings[j] == old(m.setBindings)[j])
+//@   ensures  [grow]   forall n string :: {n in m.State} (n in old(m.State)) ==> (n in m.State) && m.State[n] == old(m.State)[n]
+//@   ensures  [record] forall n string :: {n in m.State} (n in m.State) && !(n in old(m.State)) ==> named(m.bindingsMapping, m.setBindings[len(m.setBindings)-1], n)
+//@   ensures  [bind]   result1 && !(b.Name in old(m.State)) ==> (b.Name in m.State) && m.State[b.Name] == result0
+//@   at call match#1 assert [recall] isNil(b.Node) && (b.Name in m.State) && v == m.State[b.Name]
+
+//@ func (*Matcher).Match
+//@   requires m != nil && len(m.setBindings) == 0 && 0 <= len(a.Bindings) && len(a.Bindings) <= 64 && (forall i int, j int :: {a.Bindings[i], a.Bindings[j]} 0 <= i && i < len(a.Bindings) && 0 <= j && j < len(a.Bindings) && a.Bindings[i] == a.Bindings[j] ==> i == j)
+//@   modifies m.State, m.setBindings, m.bindingsMapping
+//@   ensures  [empty] len(m.setBindings) == 0
+
+// ---- parser: both spellings of a binding get the index of their name ----
+//@ func (*Parser).bindingIndex
+//@   requires p != nil
+//@   modifies p.bindings
+//@   ensures  [index]  p.bindings != nil && (name in p.bindings) && p.bindings[name] == result
+//@   ensures  [fresh]  !(name in old(p.bindings)) ==> result == len(old(p.bindings))
+//@   ensures  [others] forall n string :: {n in p.bindings} n != name ==> (n in p.bindings) == (n in old(p.bindings)) && ((n in p.bindings) ==> p.bindings[n] == old(p.bindings)[n])
+//@   ensures  [stable] (name in old(p.bindings)) ==> result == old(p.bindings)[name] && len(p.bindings) == len(old(p.bindings))
+
+//@ func (*Parser).accept
+//@   trusted
+//@   modifies Parser.cur, Parser.last, Parser.nextItem
+//@ func (*Parser).next
+//@   trusted
+//@   modifies Parser.cur, Parser.last, Parser.nextItem
+//@ func (*Parser).peek
+//@   trusted
+//@   modifies Parser.cur, Parser.last, Parser.nextItem
+//@ func (*Parser).rewind
+//@   trusted
+//@   modifies Parser.cur, Parser.last, Parser.nextItem
+//@ func (*Parser).unexpectedToken
+//@   trusted
+//@   ensures  result != nil
+//@ func (*Parser).array
+//@   trusted
+//@   modifies Parser.cur, Parser.last, Parser.nextItem, Parser.bindings
+//@   ensures  [mono] forall n string :: {n in p.bindings} (n in old(p.bindings)) ==> (n in p.bindings) && p.bindings[n] == old(p.bindings)[n]
+// reflective constructor: exported fields are the arguments, unexported fields are zero
+//@ func (*Parser).populateNode
+//@   trusted
+//@   ensures  [binding] result1 == nil && istype(result0, Binding) ==> astype(result0, Binding).idx == 0
+//@   ensures  [err]     result1 != nil || result0 != nil
+
+// an explicit (Binding "name" pattern) node must carry the index of its name, exactly like the
+// name@pattern shorthand handled by object()
+//@ func (*Parser).node
+//@   requires p != nil
+//@   modifies Parser.cur, Parser.last, Parser.nextItem, Parser.bindings
+//@   ensures  [idx]  result1 == nil && istype(result0, Binding) ==> (astype(result0, Binding).Name in p.bindings) && astype(result0, Binding).idx == p.bindings[astype(result0, Binding).Name]
+//@   ensures  [mono] forall n string :: {n in p.bindings} (n in old(p.bindings)) ==> (n in p.bindings) && p.bindings[n] == old(p.bindings)[n]
+//@   loop 1   invariant [mono] forall n string :: {n in p.bindings} (n in loopentry(p.bindings)) ==> (n in p.bindings) && p.bindings[n] == loopentry(p.bindings)[n]
+
+//@ func (*Parser).object
+//@   requires p != nil
+//@   modifies Parser.cur, Parser.last, Parser.nextItem, Parser.bindings
+//@   ensures  [idx]  result1 == nil && istype(result0, Binding) ==> (astype(result0, Binding).Name in p.bindings) && astype(result0, Binding).idx == p.bindings[astype(result0, Binding).Name]
+//@   ensures  [mono] forall n string :: {n in p.bindings} (n in old(p.bindings)) ==> (n in p.bindings) && p.bindings[n] == old(p.bindings)[n]
